@@ -506,6 +506,8 @@ def run_local(inp):
     # two calls in the form given, an unrelated call in between; when the call has a plain twin
     # (contiguous X, Python ints) a third call in that form: all must return the same tensor
     reps = 3 if has_canonical(inp) else 2
+    if inp.get('once'):          # exhaustive planned-draw streams: the draws ARE the randomness, one call
+        reps = 1
     for rep in range(reps):
         numpy.random.seed(1234567 + 7919 * rep)      # the result must not depend on the global state
         if rep == 1:
@@ -648,7 +650,7 @@ def enum_whole(A, seqs, batch):
         chunk = seqs[i:i + batch]
         fams = [n_families(A, s) for s in chunk]
         for k in range(max(fams)):
-            yield {'kind': 'enum', 'A': A, 'seqs': chunk, 'start': 0, 'end': L,
+            yield {'kind': 'enum', 'A': A, 'seqs': chunk, 'start': 0, 'end': L, 'once': k % 4 != 0,
                    'plan': [[family(A, s, k % f)] for s, f in zip(chunk, fams)]}
 
 
@@ -658,7 +660,7 @@ def enum_two(A, s):
     f = n_families(A, s)
     for k1 in range(f):
         for k2 in range(f):
-            yield {'kind': 'enum', 'A': A, 'seqs': [s], 'start': 0, 'end': L,
+            yield {'kind': 'enum', 'A': A, 'seqs': [s], 'start': 0, 'end': L, 'once': (k1 + k2) % 4 != 0,
                    'plan': [[family(A, s, k1), family(A, s, k2)]]}
 
 
